@@ -34,10 +34,16 @@ import torch
 from common import ROOT, Check, InfraError, ddmin
 
 warnings.filterwarnings("ignore")
+torch.set_num_threads(1)      # tiny networks: threads only add contention
 
 FIND_HEAD = "C03-stochastic-head-mutations-dead"
 FIND_KERNEL = "C03-cnn-explicit-kernel-unchecked"
 FIND_LSTM_DENSE = "C03-lstm-get-output-dense-key"
+FIND_RESNET = "C03-resnet-channel-int"
+FIND_KERNEL3D = "C03-cnn-change-kernel-tuple-kwargs"
+FIND_STALE = "C03-nested-methods-stale-after-recreate"
+FIND_LAYER = "C03-encoder-layer-mutations-reenabled"
+FIND_CK_DEAD = "C03-encoder-change-kernel-dead"
 
 NODE_CHOICES = {"mlp": [16, 32, 64], "lstm": [16, 32, 64], "simba": [16, 32, 64],
                 "cnn": [8, 16, 32], "resnet": [8, 16, 32], "latent": [8, 16, 32]}
@@ -206,8 +212,11 @@ def sample_obs(space, b: int, depth=None):
         return {k: sample_obs(s, b) for k, s in space.spaces.items()}
     if isinstance(space, sp.Tuple):
         return tuple(sample_obs(s, b) for s in space.spaces)
-    if isinstance(space, sp.Discrete):
-        return torch.randint(0, int(space.n), (b, 1)).float()
+    if isinstance(space, sp.Discrete):     # networks receive preprocessed (one-hot) observations
+        return torch.nn.functional.one_hot(torch.randint(0, int(space.n), (b,)), int(space.n)).float()
+    if isinstance(space, sp.MultiDiscrete):
+        return torch.cat([torch.nn.functional.one_hot(torch.randint(0, int(n), (b,)), int(n)).float()
+                          for n in space.nvec], dim=1)
     return torch.rand(b, *space.shape) * 2 - 1
 
 
@@ -752,6 +761,8 @@ def report(chk: Check, suite: str, spec: dict, steps: list[dict], res: dict, pol
         chk.violation(f"[{suite}] {what}", replay)
         return 0
     d = r2["diff"]
+    if classify_diff(r2["impl"][d], r2["model"][d]) in known:
+        return 0
     chk.violation(f"[{suite}] implementation and Arch model disagree at observable {d}: impl={r2['impl'][d][:160]!r} "
                   f"model={r2['model'][d][:160]!r}; property oracle holds on this chain and its shrinks",
                   replay, no_input=True)
@@ -760,8 +771,27 @@ def report(chk: Check, suite: str, spec: dict, steps: list[dict], res: dict, pol
 
 def classify(spec, steps, what: str):
     """map an oracle failure to a separately probed finding, so that it is reported once"""
+    if "Channel size must be an integer" in what:
+        return FIND_RESNET
+    if "Kernel size must be a tuple" in what or "Kernel size must be an integer" in what:
+        return FIND_KERNEL3D
     if spec.get("cls") == "StochasticActor" and "last_mutation_attr=None" in what and "head_net" in what:
         return FIND_HEAD
+    if "change_kernel" in what and "last_mutation_attr=None" in what and spec.get("kind") == "net":
+        return FIND_CK_DEAD
+    latent = [j for j, st in enumerate(steps) if st["method"].endswith("latent_node")]
+    if latent and any(not st.get("clone", True) for st in steps[latent[0] + 1:]):
+        return FIND_STALE
+    return None
+
+
+def classify_diff(impl: str, model: str):
+    """a disagreement confined to the advertised method names of a re-created encoder"""
+    extra = set(impl.split()) - set(model.split())
+    if extra and not (set(model.split()) - set(impl.split())) and all(
+            e.startswith("encoder.") and e.rsplit(".", 1)[1] in ("add_layer", "remove_layer", "add_block", "remove_block")
+            for e in extra):
+        return FIND_LAYER
     return None
 
 
@@ -902,7 +932,11 @@ def walk(chk: Check, suite: str, spec: dict, policy: dict, length: int, known: s
         name = str(m.sample_mutation_method(0.3, gen))
         st = {"method": name, "seed": chk.rng.randrange(1 << 30), "clone": chk.rng.random() < clone_prob}
         if st["clone"]:
-            m = m.clone()
+            try:
+                m = m.clone()
+            except Exception:
+                steps.append(st)
+                break           # run_chain below reproduces and reports it
         r = do_step(spec, m, st, start_ok, oracle=False)
         steps.append(st)
         if r.raised is not None:
@@ -911,15 +945,19 @@ def walk(chk: Check, suite: str, spec: dict, policy: dict, length: int, known: s
             # what `_apply_arch_mutation` does for the other evaluation networks
             tk = dict(r.ret) if isinstance(r.ret, dict) else {}
             ts = {"method": r.applied, "kwargs": tk, "seed": 1, "clone": True}
-            t = t.clone()
-            rt = do_step(spec, t, ts, start_ok, oracle=True)
-            if rt.problems:
-                problems.append((j, [f"twin: {p}" for p in rt.problems]))
+            try:
+                t = t.clone()
+                rt = do_step(spec, t, ts, start_ok, oracle=True)
+                tp = rt.problems
+            except Exception as e:
+                tp = [f"clone() raised {type(e).__name__}: {str(e)[:160]}"]
+            if tp:
+                problems.append((j, [f"twin: {p}" for p in tp]))
                 break
             if summary(spec, t) != summary(spec, m):
-                problems.append((j, [f"twin network diverged after {r.applied}({tk}): {summary(spec, t)[:200]} "
-                                     f"vs {summary(spec, m)[:200]}"]))
-                break
+                # not part of C03: add_layer of a CNN returns no kwargs, so the twin draws its own kernel/stride
+                chk.dist["twin-diverged"] += 1
+                t = m.clone()
     res = run_chain(chk, spec, steps, policy)
     key = [spec["id"], "walk", [(s["method"], s["seed"], s["clone"]) for s in steps]]
     chk.case(key, nontrivial=len(steps) > 1,
@@ -928,7 +966,7 @@ def walk(chk: Check, suite: str, spec: dict, policy: dict, length: int, known: s
     nd = 0
     if problems and not res["problems"]:
         j, ps = problems[0]
-        fid = None
+        fid = classify(spec, steps[:j + 1], ps[0])
         if not (fid and fid in known):
             chk.violation(f"[{suite}] {ps[0]}", {"suite": suite, "spec": spec, "steps": steps[:j + 1], "twin": True,
                                                  "policy": policy, "oracle_problems": ps})
@@ -1021,26 +1059,65 @@ def subjects(tier: str) -> list[dict]:
 
 # ----------------------------------------------------------------------------- probes for analysed defects
 def probe_policy(chk: Check) -> tuple[dict, set]:
-    """how does the tree under test behave at the two switch points of the model?  A behaviour that
-    violates the property is reported through `chk.finding` (KNOWN-FINDING only if listed open)."""
-    known = set()
+    """Probes for the specific, analysed defects of the design round (each checks exactly one call
+    site).  A probe that fails goes through `chk.finding`: KNOWN-FINDING if listed open in
+    known_findings.json, otherwise a VIOLATION.  Returns the behaviour of the tree under test at the
+    model's two switch points and the ids already reported (the suites do not report them again)."""
+    handled: set = set()
     policy = {"forward_head": True, "clamp_kernel": True}
+    by_id = {s["id"]: s for s in subjects("quick")}
+
+    def finding(fid, detail, spec, steps, **extra):
+        handled.add(fid)
+        chk.finding(fid, detail, dict({"suite": "probe", "spec": spec, "steps": steps, "policy": dict(policy)}, **extra))
+
+    # D21: EvolvableResNet channel mutations leave an np.int64 that the constructor refuses
+    spec = by_id["resnet-default"]
+    m = build(spec)
+    steps = [{"method": "add_channel", "draw": "lo", "seed": 1, "clone": False}]
+    with patched_numpy(Draws(1, "lo")):
+        m.add_channel()
+    bad = rebuild_check(m)
+    if bad:
+        finding(FIND_RESNET, f"EvolvableResNet.add_channel() (numpy draw, as architecture_mutate calls it) leaves "
+                f"channel_size a {type(m.channel_size).__name__}: {bad[0]}", spec, steps, oracle_problems=bad)
     # D20: StochasticActor advertises head_net.* ; do they do anything?
-    spec = next(s for s in subjects("quick") if s["id"] == "stoch-vec-small")
+    spec = by_id["stoch-vec-small"]
     m = build(spec)
     before = list(head_of(m).hidden_size)
     with patched_numpy(Draws(1, "lo")):
         getattr(m, "head_net.add_layer")()
     if m.last_mutation_attr is None and list(head_of(m).hidden_size) == before:
         policy["forward_head"] = False
-        n_before = len(chk.violations)
-        chk.finding(FIND_HEAD, "StochasticActor advertises head_net.add_layer/remove_layer/add_node/remove_node "
-                    "but calling them changes nothing and sets last_mutation_attr=None (the wrapped head's "
-                    "mutations are disabled by the EvolvableDistribution wrapper)",
-                    {"suite": "probe", "spec": spec, "steps": [{"method": "head_net.add_layer", "draw": "lo",
-                                                                "clone": False}], "policy": policy})
-        if len(chk.violations) == n_before:
-            known.add(FIND_HEAD)
+        finding(FIND_HEAD, "StochasticActor advertises head_net.add_layer/remove_layer/add_node/remove_node "
+                "but calling them changes nothing and sets last_mutation_attr=None (the wrapped head's "
+                "mutations are disabled by the EvolvableDistribution wrapper)", spec,
+                [{"method": "head_net.add_layer", "draw": "lo", "seed": 1, "clone": False}])
+    # nested methods after the encoder / head were re-created by a latent mutation (no clone in between)
+    spec = by_id["q-vec-small"]
+    m = build(spec)
+    steps = [{"method": "add_latent_node", "kwargs": {"numb_new_nodes": 1}, "clone": False},
+             {"method": "encoder.add_node", "kwargs": {"hidden_layer": 0, "numb_new_nodes": 1}, "clone": False}]
+    m.add_latent_node(numb_new_nodes=1)
+    if any(x.endswith("add_layer") and x.startswith("encoder.") for x in m.mutation_methods):
+        finding(FIND_LAYER, "after add_latent_node the re-created encoder advertises encoder.add_layer / "
+                "encoder.remove_layer again (EvolvableNetwork disables them only in __init__; a clone() hides them "
+                "again)", spec, steps[:1])
+    getattr(m, "encoder.add_node")(hidden_layer=0, numb_new_nodes=1)
+    bad = ([] if m.last_mutation_attr == "encoder.add_node" else
+           [f"last_mutation_attr={m.last_mutation_attr} after encoder.add_node"]) + rebuild_check(m)
+    if bad:
+        finding(FIND_STALE, "add_latent_node followed by encoder.add_node on the same object: the network still "
+                f"calls the method of the discarded encoder -> {bad[0]}", spec, steps, oracle_problems=bad)
+    # change_kernel on a single-layer CNN encoder falls back on the disabled add_layer
+    spec = by_id["q-img-small"]
+    m = build(spec)
+    with patched_numpy(Draws(1, "lo")):
+        getattr(m, "encoder.change_kernel")()
+    if m.last_mutation_attr is None:
+        finding(FIND_CK_DEAD, "encoder.change_kernel on a network whose CNN encoder has one layer falls back on "
+                "add_layer, which is disabled for encoders: nothing changes and last_mutation_attr=None", spec,
+                [{"method": "encoder.change_kernel", "draw": "lo", "seed": 1, "clone": False}])
     # explicit kernel arguments of change_kernel
     spec = {"id": "cnn-probe", "kind": "cnn", "cfg": dict(input_shape=[2, 16, 16], num_outputs=3,
                                                           **small_cnn_cfg(ch=(2, 2), k=(3, 3), s=(1, 1)))}
@@ -1055,18 +1132,16 @@ def probe_policy(chk: Check) -> tuple[dict, set]:
     if not clamped:
         policy["clamp_kernel"] = False
     if bad:
-        n_before = len(chk.violations)
-        chk.finding(FIND_KERNEL, "EvolvableCNN.change_kernel(kernel_size=13, hidden_layer=1) on 16x16 input with "
-                    f"kernels [3,3]: the explicit kernel is larger than the 14x14 feature map -> {bad[0]}",
-                    {"suite": "probe", "spec": spec, "steps": [step], "policy": policy, "oracle_problems": bad})
-        if len(chk.violations) == n_before:
-            known.add(FIND_KERNEL)
+        finding(FIND_KERNEL, "EvolvableCNN.change_kernel(kernel_size=13, hidden_layer=1) on 16x16 input with "
+                f"kernels [3,3]: the explicit kernel is larger than the 14x14 feature map -> {bad[0]}",
+                spec, [step], oracle_problems=bad)
     # Conv3d: the kwargs returned by change_kernel must be applicable to a twin (what critics receive)
     spec3 = {"id": "cnn3d-probe", "kind": "cnn3d", "depth": 2,
              "cfg": dict(input_shape=[2, 16, 16], num_outputs=3, **small_cnn_cfg(ch=(2, 2), k=(3, 3), s=(1, 1)))}
     a, b = build(spec3), build(spec3)
     with patched_numpy(Draws(3, "hi")):
         ret = a.change_kernel()
+    ret = {k: int(v) for k, v in ret.items()}
     try:
         b.change_kernel(**ret)
         bad3 = forward_check(spec3, b, (1,))
@@ -1075,19 +1150,17 @@ def probe_policy(chk: Check) -> tuple[dict, set]:
     except Exception as e:
         bad3 = [f"{type(e).__name__}: {str(e)[:120]}"]
     if bad3:
-        chk.violation(f"[probe] Conv3d EvolvableCNN.change_kernel(**{ret}) — the kwargs returned by the same method "
-                      f"on a twin network — fails: {bad3[0]}",
-                      {"suite": "probe", "spec": spec3, "steps": [{"method": "change_kernel", "kwargs": ret,
-                                                                   "clone": False}], "policy": policy,
-                       "oracle_problems": bad3})
+        finding(FIND_KERNEL3D, f"Conv3d EvolvableCNN.change_kernel(**{ret}) - the kwargs the same method returned on "
+                f"a twin network, which is what architecture_mutate hands to the critics - fails: {bad3[0]}",
+                spec3, [{"method": "change_kernel", "kwargs": ret, "clone": False}], oracle_problems=bad3)
     # EvolvableLSTM.get_output_dense
-    lspec = next(s for s in subjects("quick") if s["id"] == "lstm-small")
+    lspec = by_id["lstm-small"]
     try:
         build(lspec).get_output_dense()
     except Exception as e:
-        chk.finding(FIND_LSTM_DENSE, f"EvolvableLSTM.get_output_dense() raises {type(e).__name__}: {e}",
-                    {"suite": "probe", "spec": lspec, "steps": [], "call": "get_output_dense", "policy": policy})
-    return policy, known
+        finding(FIND_LSTM_DENSE, f"EvolvableLSTM.get_output_dense() raises {type(e).__name__}: {e}", lspec, [],
+                call="get_output_dense")
+    return policy, handled
 
 
 # ----------------------------------------------------------------------------- check
@@ -1256,7 +1329,7 @@ def replay(chk: Check, path: str) -> int:
                               "twin_problems": rt.problems}))
             bad += rt.problems
             if summary(spec, t) != summary(spec, m):
-                bad.append("twin diverged")
+                t = m.clone()
         if bad:
             print(f"VIOLATION property=C03 replay={path}")
             return 1
